@@ -1,6 +1,6 @@
 from xdsl.context import Context
 from xdsl.dialects import builtin, linalg
-from xdsl.ir import Block
+from xdsl.ir import Block, SSAValue
 from xdsl.parser import IRDLOperation
 from xdsl.passes import ModulePass
 from xdsl.pattern_rewriter import (
@@ -23,11 +23,26 @@ def check_kernel_equivalence(block_a: Block, block_b: Block) -> bool:
     if len(block_a.ops) != len(block_b.ops):
         return False
 
-    # warning: this is a bit of a naive way of checking equality between
-    # kernels, but should cover all of our purposes for quite some time
+    # the blocks must take the same arguments ...
+    if [arg.type for arg in block_a.args] != [arg.type for arg in block_b.args]:
+        return False
+
+    # ... and apply the same operations to the same values: walk both blocks in lockstep and
+    # keep track of which value of block_b corresponds to every value of block_a
+    value_map: dict[SSAValue, SSAValue] = dict(zip(block_a.args, block_b.args))
+
     for op_a, op_b in zip(block_a.ops, block_b.ops, strict=True):
         if type(op_a) is not type(op_b):
             return False
+        if len(op_a.operands) != len(op_b.operands) or len(op_a.results) != len(op_b.results):
+            return False
+        for operand_a, operand_b in zip(op_a.operands, op_b.operands):
+            if value_map.get(operand_a) is not operand_b:
+                return False
+        for result_a, result_b in zip(op_a.results, op_b.results):
+            if result_a.type != result_b.type:
+                return False
+            value_map[result_a] = result_b
 
     return True
 
